@@ -132,3 +132,42 @@ def enc_stage(V):
                     V.violation({'kind': 'departure', 'clause': 'renders-differ', 'cls': 'renders-differ-under-encoding',
                                  'detail': {'encoding': enc, 'a': case[0][1], 'b': src, 'got_a': outs[0], 'got_b': o}})
                     break
+
+
+# ---------------------------------------------------------------------------------------------
+# a tag registered while the process is running (an add-on product imported late) is a tag in every spelling
+
+def late_tag_stage(V):
+    from DocumentTemplate.DT_String import String
+    from DocumentTemplate._DocumentTemplate import render_blocks
+
+    class Shout:
+        name = 'shout'
+        blockContinuations = ()
+
+        def __init__(self, blocks, encoding=None):
+            tname, args, section = blocks[0]
+            self.section = section.blocks
+
+        def render(self, md):
+            return render_blocks(self.section, md).upper()
+        __call__ = render
+    # templates of every class using every lazily imported block tag have been compiled before
+    for syn, src in A + B:
+        front.template_class(syn)(src).cook()
+    String.commands['shout'] = Shout
+    try:
+        outs = []
+        spell = [('html', 'a<dtml-shout>b<dtml-var v></dtml-shout>c'), ('html', 'a<!--#shout-->b<!--#var v--><!--#/shout-->c'),
+                 ('html', 'a<!--#shout-->b<!--#var v--><!--#endshout-->c'), ('epfs', 'a%(shout)[b%(v)s%(shout)]c')]
+        for syn, src in spell:
+            V.count('late_tag_compilations')
+            try:
+                outs.append(front.template_class(syn)(src)(v='x'))
+            except Exception as e:  # noqa
+                outs.append('RAISED %s' % type(e).__name__)
+        if any(o != outs[0] for o in outs) or outs[0] != 'aBXc':
+            V.violation({'kind': 'departure', 'clause': 'accept-reject', 'cls': 'late-tag-registration',
+                         'detail': {'spellings': spell, 'outcomes': outs, 'expected': 'aBXc in every spelling'}})
+    finally:
+        del String.commands['shout']
